@@ -903,6 +903,13 @@ func init() {
 				},
 				Visit: func(res *sched.Result) bool { return !col.TooMany() },
 			}
+			if rname, choices, ok := e3Replay(c); ok {
+				if rname != sc.name {
+					out.Exhaustive = false
+					return out // the replay file names another scenario
+				}
+				ex.Only = choices
+			}
 			st := ex.Explore()
 			out.Executions, out.Transitions, out.MaxPoints, out.Exhaustive = st.Executions, st.Transitions, st.MaxPoints, st.Exhaustive
 			out.Extra["owned_select_choices"], out.Extra["racy_selects"] = st.Picks, st.RacySelects
